@@ -126,7 +126,7 @@ func newWeightedRoundRobinSelector(servers map[string]string) Selector {
 
 func (s *weightedRoundRobinSelector) Select(ctx context.Context, servicePath, serviceMethod string, args interface{}) string {
 	ss := s.servers
-	if len(ss) == 0 {
+	if len(ss) == 0 || s.rr == nil {
 		return ""
 	}
 	val := s.rr.Value
@@ -187,6 +187,11 @@ func createWeighted(servers map[string]string) []*Weighted {
 					w.Weight = weight
 				}
 			}
+		}
+
+		// a server with a non-positive weight takes no traffic
+		if w.Weight <= 0 {
+			continue
 		}
 
 		ss = append(ss, w)
